@@ -4,7 +4,7 @@ from props import _generic as g
 
 def run(ctx):
     fns = g.run_pyvc(ctx, "C03")
-    ctx.cvc(["II", "OO"] if ctx.tier == "quick" else ["II", "OO", "LF", "QQ", "fs"], ["F-SPLIT"], functions=["bucket_split"])
+    ctx.cvc(["II", "OO"] if ctx.tier == "quick" else ["II", "OO", "LF", "QQ", "fs"], ["F-SPLIT"], functions=["bucket_split", "BTree_split"])
     ctx.standin("hist_rt", families=("OO", "II") if ctx.tier == "quick" else ("OO", "II", "LF", "QQ", "fs", "IO", "UU", "LL"),
                 args=["--mode", "wf"])
     return "proof", (
@@ -18,6 +18,8 @@ def run(ctx):
         "clauses hold). %d targets, every obligation discharged by z3. Engine C, F-SPLIT: bucket_split from its real loop-free "
         "body, for every length and content: neither half is empty, the new sibling holds exactly the upper half (keys and values), "
         "the left half is untouched, next->next == old self->next and self->next == next, the change is registered; its one "
-        "caller passes the index the contract requires. Key containment within separator ranges, node-size "
+        "caller passes the index the contract requires; BTree_split likewise (items copied whole - child and separator -, and the new "
+        "node's firstbucket is its first child when that is a leaf, that child's own firstbucket, read after activating it, when it is "
+        "a node). Key containment within separator ranges, node-size "
         "limits, and the rest of the C implementation are checked after every call of bounded histories by the stand-in hist_rt (wf mode: "
         "independent walker + _check() + BTrees.check.check())." % len(fns))
